@@ -114,7 +114,14 @@ class Tap(object):
         def _recv_datagram(conn, hdr, datagram):
             e = tap.end(conn)
             tap.fan("before_recv", e, datagram)
-            res = o["recv"](conn, hdr, datagram)
+            try:
+                res = o["recv"](conn, hdr, datagram)
+            except Exception:
+                # state may have been touched before the raise: judge it like any other outcome
+                tap.counters.inc("recv_calls")
+                tap.counters.inc("recv_raised")
+                tap.fan("after_recv", e, datagram, None)
+                raise
             tap.counters.inc("recv_calls")
             tap.fan("after_recv", e, datagram, res)
             return res
